@@ -384,6 +384,35 @@ _OMD = _cls_methods(OMD, 'boltons.dictutils', [
     {'py': 'clear', 'name': 'clear', 'params': {}, 'result': 'None',
      'tie_theorem': 'C01.src_clear_eq_model'},
 ])
+# round 3e (continuation): the methods that read a KEY back out of a cell (`k = self.root[PREV][KEY]`): extension module
+# harness/py2lean_c01.py (spec `ext`; `key_locals`: the locals of the static key type that receive a CHECKED UNBOXING,
+# `PyRtC01.unboxKey?`), `if self:` of the dict subclass, `try / except KeyError` around a translated method.
+OMD['ext'] = 'py2lean_c01'
+_OMD = _OMD + _cls_methods(OMD, 'boltons.dictutils', [
+    {'py': 'poplast', 'name': 'poplast', 'params': {'k': 'Option κ', 'default': 'Option ν'}, 'result': 'ν',
+     'key_locals': ['k'], 'tie_theorem': 'C01.src_poplast_eq_model'},
+    {'py': 'pop', 'name': 'pop', 'params': {'k': 'κ', 'default': 'Option ν'}, 'result': 'ν', 'loop_fuel': True,
+     'tie_theorem': 'C01.src_pop_eq_model'},
+    {'py': 'popitem', 'name': 'popitem', 'params': {}, 'result': 'κ × ν', 'loop_fuel': True, 'key_locals': ['k'],
+     'tie_theorem': 'C01.src_popitem_eq_model'},
+])
+# the readers `self[k]` and `getlist(k[, default])` (K4: the item of `dict.__getitem__(self, k)` bound first)
+_OMD = _OMD + _cls_methods(OMD, 'boltons.dictutils', [
+    {'py': '__getitem__', 'name': 'getitem', 'params': {'k': 'κ'}, 'result': 'ν',
+     'tie_theorem': 'C01.src_getitem_eq_model'},
+    {'py': 'getlist', 'name': 'getlist', 'params': {'k': 'κ', 'default': 'Option (List ν)'}, 'result': 'List ν',
+     'tie_theorem': 'C01.src_getlist_eq_model'},
+])
+# the generator `iterkeys(multi=False)`: walks the store with `while curr is not root` (loop fuel), the keys it yields are
+# read back out of the cells (K1 / K6), the local `yielded = set()` is the list of the keys added (K5 / K7)
+_OMD = _OMD + _cls_methods(OMD, 'boltons.dictutils', [
+    {'py': 'iterkeys', 'name': 'iterkeys', 'kind': 'generator', 'params': {'multi': 'Bool'}, 'result': 'κ',
+     'loop_fuel': True, 'key_locals': ['k'], 'yield_unbox': True, 'locals': {'yielded': 'List κ'},
+     'tie_theorem': 'C01.src_iterkeys_eq_model'},
+    {'py': 'iteritems', 'name': 'iteritems', 'kind': 'generator', 'params': {'multi': 'Bool'}, 'result': 'κ × ν',
+     'loop_fuel': True, 'key_locals': [], 'yield_unbox': ['key', 'val'], 'tie_theorem': 'C01.src_iteritems_eq_model'},
+])
+OMD['methods'] = _OMD
 for _sp in _OMD:
     _sp['gen_file'] = 'dictutils_omd'
 
